@@ -717,6 +717,24 @@ def status_checked(ctx, res):
     flush_paths(ctx)
     if not STATUS_APIS:
         raise AnalysisError("no int-status API in the CPython model")
+    # in-file functions (and the handler slots that dispatch to them) with a
+    # path that returns a negative status
+    from .cown import slot_targets
+    fallible = set()
+    for f, ps in paths.items():
+        if returns_pointer(facts, f):
+            continue
+        if any(p.outcome[0] == "RETURN" and re.fullmatch(r"-\d+", p.outcome[1])
+               for p in ps or []):
+            fallible.add(f)
+    targets = slot_targets(facts)
+
+    def is_status(c):
+        if c in STATUS_APIS or c in fallible:
+            return True
+        return c.startswith("->") and any(t in fallible for t in targets(c))
+    if len(fallible) < 20:
+        raise AnalysisError(f"only {len(fallible)} in-file status functions")
     n_sites = 0
     seen = set()
     for f in sorted(paths):
@@ -724,14 +742,14 @@ def status_checked(ctx, res):
         for p in paths[f] or []:
             calls = [it for it in p.trace if it[0] == "call"]
             for it in calls:
-                if it[1] in STATUS_APIS:
+                if is_status(it[1]):
                     key = (f, it[1], it[4])
                     if key not in seen:
                         seen.add(key)
                         n_sites += 1
                         res.instance(f"{f}:{it[1]}", f"{CREL}:{it[4]}",
                                      discarded=bool(it[5]))
-                if not (it[1] in STATUS_APIS and it[5]):
+                if not (is_status(it[1]) and it[5]):
                     continue
                 if p.outcome[0] == "RETURN" and (
                         (ptr and p.outcome[1] == "0")
@@ -745,9 +763,10 @@ def status_checked(ctx, res):
                     k2, f"{CREL}:{it[4]}",
                     f"{f} throws away the status of {it[1]}(...) and carries "
                     f"on to {' '.join(p.outcome)}: when the call fails (an "
-                    f"unhashable or raising key) the exception stays pending "
-                    f"while more Python code is run, and the state the call "
-                    f"was to establish is missing",
+                    f"unhashable or raising key, a handler or validator that "
+                    f"raises) the exception stays pending while the function "
+                    f"reports success, and the state the call was to "
+                    f"establish is missing",
                     [f"{CREL}:{l}" for l in dict.fromkeys(p.lines) if l][-6:])
     res.floor(10)
     if n_sites:
